@@ -257,8 +257,9 @@ Definition slash_validator (a : N) (chain percent already : N) (s : lstate) : re
     s1 <- sub_total amount s ;;
     if after =? 0 then delete_validator a v s1 else
     s2 <- sub_staked amount s1 ;;
-    s3 <- delete_committees (v_stake v) (v_committees v) s2 ;;
-    s4 <- set_committees after new_committees s3 ;;
+    s4 <- (if v_delegate v
+           then (d1 <- sub_delegated amount s2 ;; d2 <- delete_delegations (v_stake v) (v_committees v) d1 ;; set_delegations after new_committees d2)
+           else (s3 <- delete_committees (v_stake v) (v_committees v) s2 ;; set_committees after new_committees s3)) ;;
     let v' := mkVal after (v_output v) new_committees (v_paused v) (v_unstaking v) (v_delegate v) (v_compound v) in
     let below := if v_delegate v' then after <? p_min_stake_delegates (l_params s) else after <? p_min_stake_validators (l_params s) in
     if (v_unstaking v' =? 0) && below
